@@ -202,7 +202,11 @@ SHAPES = ['', '\n', ' ', '\n\n\n', '// only a comment', '// c\n', '/* block */',
           'Table t {\n  id int [default: 00.00]\n}\n', "Table t {\n  id int [default: '\\\\']\n}\n", 'Ref: a.b > a.b\n', 'Table t {\n  id int [ref: > t.id]\n}\n',
           'Table t {\n  id int [ref: - t.id, ref: - t.id]\n}\n', 'Table t {\n  id int\n  id int\n}\n', 'Enum e {\n  a\n  a\n}\n',
           'Table t {\n  id int\n  indexes {\n    id\n    id\n  }\n}\n', 'Table t {\n  id int\n}\nTableGroup g {\n}\n', 'Project p {\n}\nProject q {\n}\n',
-          'Table t {\n  id int\n  Note: \'a\'\n  Note: \'b\'\n}\n', 'Table t {\n  id int\n  indexes {\n    id\n  }\n  indexes {\n    id [pk]\n  }\n}\n']
+          'Table t {\n  id int\n  Note: \'a\'\n  Note: \'b\'\n}\n', 'Table t {\n  id int\n  indexes {\n    id\n  }\n  indexes {\n    id [pk]\n  }\n}\n',
+          # number literals beyond what the interpreter converts to int by default (sys.get_int_max_str_digits() = 4300)
+          'Table t {\n  id int [default: ' + '9' * 4300 + ']\n}\n', 'Table t {\n  id int [default: ' + '9' * 4301 + ']\n}\n',
+          'Table t {\n  id int [default: ' + '1' * 20000 + ']\n}\n', 'Table t {\n  id int [default: ' + '1' * 5000 + '.5]\n}\n',
+          'Table t {\n  id varchar(' + '7' * 5000 + ')\n}\n']
 
 
 NUM_ALPHABET = ['1', '0', '.', 'e', 'E', '-', '+', 'x', '_']
